@@ -206,6 +206,16 @@ func (g *Gen) Chain(k int) node.Type {
 	return e
 }
 
+// Tree builds any binary operator tree with exactly k operators over symbolic int literals
+// (all Catalan shapes, chosen by the solver).
+func (g *Gen) Tree(k int) node.Type {
+	if k == 0 {
+		return node.Int(vrt.Int("lit"))
+	}
+	l := vrt.Choice("tree-left", k) // operators in the left subtree
+	return node.BinOp{Op: g.op(), Left: g.Tree(l), Right: g.Tree(k - 1 - l)}
+}
+
 // Same builds `e op e` with syntactically identical operands (common-subexpression path).
 func (g *Gen) Same(b int) node.Type {
 	e := g.Expr(b)
